@@ -506,6 +506,7 @@ class FastInterp:
 
 def run(ctx):
     r4(ctx)
+    r5(ctx)
     repo = ctx.repo
     ctx.rule("C13.R1", "field-by-field agreement of the hand-written reader with the template: same output keys "
                        "in the same wire order, same gate flag, same wire signature")
@@ -845,6 +846,9 @@ def r4(ctx):
                                                               for t in [s_.test for s_ in ast.walk(st) if isinstance(s_, ast.If)]):
                         names |= {y.id for y in ast.walk(c.test) if isinstance(y, ast.Name)}
                 n += 1
+                # module-level / class-level constants in the test are part of the bound, not of the entry
+                names = {y for y in names if not isinstance(ConstEval(repo, f.module).ev(ast.Name(id=y, ctx=ast.Load())), (int, float))
+                         or y in size_names}
                 ok = bool(names) and names <= size_names
                 ctx.ob("C13.R4", f"from_file: skip `{norm(st)[:60]}` in front of the payload read depends on the size field only",
                        ok, ctx.w(f, x), f"the entry is skipped on {sorted(names - size_names) or 'no condition'} before its "
@@ -874,3 +878,129 @@ def r2(ctx):
         ctx.ob("C13.R2", f"Quaternion.__init__ stores component {comp} exactly as given", ok, qi.where,
                f"{[norm(x.node) for x in sts]}: both decoders build rotations through this constructor; recomputing a wire "
                f"component changes the re-encoded payload")
+
+
+
+def _resolve_spec_call(repo, mod, node, depth=0):
+    """the constructor call behind a spec expression (module-level names are looked through)"""
+    while isinstance(node, (ast.Name, ast.Attribute)) and depth < 5:
+        name = node.id if isinstance(node, ast.Name) else node.attr
+        nxt = repo.module_assign(mod, name)
+        if nxt is None:
+            return None
+        node, depth = nxt, depth + 1
+    return node if isinstance(node, ast.Call) else None
+
+
+def _bind(call, init, env=None):
+    """parameter name -> argument node of `call` against the signature of `init` (defaults filled in; Names of the
+    caller's own parameters are replaced through `env`)"""
+    params = [a.arg for a in init.node.args.args][1:]
+    defaults = init.node.args.defaults
+    out = {}
+    for i, p_ in enumerate(params):
+        j = i - (len(params) - len(defaults))
+        if 0 <= j < len(defaults):
+            out[p_] = defaults[j]
+    args = [a for a in call.args if not isinstance(a, ast.Starred)]
+    for p_, a in zip(params, args):
+        out[p_] = a
+    for kw_ in call.keywords:
+        if kw_.arg in params:
+            out[kw_.arg] = kw_.value
+    if env:
+        out = {k: (env.get(v.id) if isinstance(v, ast.Name) and v.id in env else v) for k, v in out.items()}
+    return out
+
+
+def _ctor_arg(repo, ci, call, attr):
+    """value node a construction `call` of class `ci` gives to the field stored as self.<attr>, followed through
+    `super().__init__(...)` forwarding (None: unknown)"""
+    from ..core import stores as _st
+    mro = [c for c in repo.mro(ci) if "__init__" in c.methods]
+    env = None
+    cur_call = call
+    for k, c in enumerate(mro):
+        init = c.methods["__init__"]
+        env = _bind(cur_call, init, env)
+        for x in _st(init.node, into_defs=False):
+            if x.path == f"self.{attr}" and isinstance(x.value, ast.Name) and x.value.id in env:
+                return env[x.value.id]
+            if x.path == f"self.{attr}" and isinstance(x.value, ast.Constant):
+                return x.value
+        sup = [y for y in calls(init.node) if isinstance(y.func, ast.Attribute) and y.func.attr == "__init__"]
+        if len(sup) != 1:
+            return None
+        cur_call = sup[0]
+    return None
+
+
+def r5(ctx):
+    """A section whose presence is decided by the Flags field must come back when the decoded value is re-encoded:
+    the section's serializer may not have a value that its own deserialize produces from a non-empty byte range
+    (a bare terminator) and that its serialize turns into nothing at all.  (D35: TypedBytesTerminated(empty_is_none=True)
+    decodes an empty NUL-terminated section to None and writes no terminator for None.)"""
+    repo = ctx.repo
+    ctx.rule("C13.R5", "flag-gated sections never vanish on re-encode: the serializer of a CompressedOption section has no "
+                       "value that its deserialize produces after consuming bytes and its serialize writes as nothing")
+    tfields, _flag_field, tci = template_fields(ctx)
+    n = 0
+    for f in tfields:
+        if not f["gate"]:
+            continue
+        n += 1
+        v = f["node"]
+        call = _resolve_spec_call(repo, tci.module, v.args[1])
+        where = ctx.w(tci.module, v)
+        key = f"section {f['key']}: re-encoding a decoded value writes the section back"
+        if call is None:
+            ctx.ob("C13.R5", key, True, where)
+            continue
+        cname = strip_mod(ap(call.func) or "")
+        ci = repo.resolve_class(cname, tci.module) or repo.resolve_class(cname, repo.module(SER))
+        if ci is None:
+            ctx.ob("C13.R5", key, True, where)
+            continue
+        ser = next((c.methods["serialize"] for c in repo.mro(ci) if "serialize" in c.methods), None)
+        de = next((c.methods["deserialize"] for c in repo.mro(ci) if "deserialize" in c.methods), None)
+        bad = None
+        if ser is not None and de is not None:
+            params = [a.arg for a in ser.node.args.args]
+            vname = params[1] if len(params) > 1 else None
+            wname = params[2] if len(params) > 2 else "writer"
+            for st in ser.node.body:
+                if any(isinstance(x, ast.Name) and x.id == wname for x in ast.walk(st)) and not isinstance(st, ast.If):
+                    break      # something was written (or delegated) before: later returns are not "nothing"
+                if not (isinstance(st, ast.If) and st.body and isinstance(st.body[-1], ast.Return) and st.body[-1].value is None):
+                    continue
+                if any(isinstance(x, ast.Name) and x.id == wname for b in st.body for x in ast.walk(b)):
+                    continue
+                conj = st.test.values if isinstance(st.test, ast.BoolOp) and isinstance(st.test.op, ast.And) else [st.test]
+                on_none = any(isinstance(c, ast.Compare) and ap(c.left) == vname and len(c.ops) == 1
+                              and isinstance(c.ops[0], ast.Is) and isinstance(c.comparators[0], ast.Constant)
+                              and c.comparators[0].value is None for c in conj)
+                if not on_none:
+                    continue
+                enabled = True
+                for c in conj:
+                    a = ap(c)
+                    if a and a.startswith("self."):
+                        arg = _ctor_arg(repo, ci, call, a[5:])
+                        if isinstance(arg, ast.Constant) and not arg.value:
+                            enabled = False
+                if not enabled:
+                    continue
+                # does deserialize hand out None after consuming a framed (terminated) range?
+                gives_none = any(isinstance(r, ast.Return) and isinstance(r.value, ast.Constant) and r.value.value is None
+                                 for r in walk(de.node))
+                framed = "Terminated" in cname or any(
+                    isinstance(x, ast.Call) and "Terminated" in (ap(x.func) or "")
+                    for c in repo.mro(ci) if "__init__" in c.methods for x in ast.walk(c.methods["__init__"].node))
+                if gives_none and framed:
+                    bad = st
+                    break
+        ctx.ob("C13.R5", key, bad is None, where if bad is None else ctx.w(ser, bad),
+               f"{cname}.serialize returns without writing when the value is None (`{norm(bad)[:70] if bad is not None else ''}`), "
+               f"but its deserialize yields None for an empty terminated section: with {f['gate'][0]} set the payload comes "
+               f"back one terminator short")
+    ctx.floor("C13.R5", "gated sections", n, 10)
